@@ -80,9 +80,14 @@ impl<S: Read + Write> Client<S> {
     /// ```
     pub fn write<T: 'static>(&mut self, message: T) -> RdpResult<()>
     where T: Message {
+        // The TPKT length field is 16 bits wide and include the header
+        let size = message.length();
+        if size > 0xFFFF - 4 {
+            return Err(Error::RdpError(RdpError::new(RdpErrorKind::InvalidSize, "Message too large for a TPKT frame")))
+        }
         self.transport.write(
             &trame![
-                tpkt_header(message.length() as u16),
+                tpkt_header(size as u16),
                 message
             ]
         )
